@@ -352,7 +352,73 @@ def run(prog, ctx):
                         res.violate("C02.A4", "C02.A4|%s" % f.id,
                                     "nibble %s written in %s is not relative to the cur_min in force when the function returns (%s)" % (
                                         show(v), f.id, show(want)), f.id, site["span"])
+    # the reserved nibble value (the aux token) is never written as a plain value: a put_raw of `new - cur_min` is reached only
+    # when that difference is below the token; by value over (new, cur_min)
+    f4 = C.fn_one(prog, ARRAYS[0], "update")
+    tok = prog.consts.get("hll::array4::AUX_TOKEN", {}).get("v", 15)
+    if f4 is not None:
+        s4 = Sym(prog, f4)
+        for b, site in f4.calls():
+            if not ((site.get("callee") or "").endswith("Array4::put_raw") and len(site["args"]) == 3):
+                continue
+            v = s4.at(b, "t").operand(site["args"][2])
+            if v[0] == "const":
+                continue
+            fp = C.facts_pred(s4, b)
+            n_a4 += 1
+            verdict, wit = None, ""
+            try:
+                verdict = True
+                any_eval = False
+                for cm in (0, 1, 5, 20):
+                    for nv in range(cm, min(cm + 40, 64)):
+                        coupon = (nv << 26) | 3
+                        env = {"@prog": prog, "coupon": coupon, "self.cur_min": cm, "self.lg_config_k": 4, "@fn:get_raw": lambda *a: 0, "@lenient": ("get_raw",)}
+                        holds, n_ev = fp(env)
+                        if n_ev == 0:
+                            continue
+                        any_eval = True
+                        val = formula.evaluate(v, env)
+                        if holds and val >= tok:
+                            verdict, wit = False, "value %d with cur_min %d is stored inline as nibble %d (the aux token is %d)" % (nv, cm, val, tok)
+                if not any_eval:
+                    verdict = None
+            except (formula.Uneval, TypeError):
+                verdict = None
+            res.tri(verdict, "C02.A4", "C02.A4|%s|token" % f4.id, "Array4::update: %s" % wit, f4.id, site.get("span"))
     res.rule("C02.A4", n_a4, 2, "nibble encodings `actual - cur_min`")
+    # ---------------- C02.E emptiness of the three register arrays, by value: empty <=> every register is zero
+    n_e = 0
+    for owner in ARRAYS:
+        fe = C.fn_one(prog, owner, "is_empty")
+        if fe is None:
+            continue
+        e_ = C.ret_expr(prog, fe)
+        flds = [x for v_ in prog.adts.get(owner, {}).get("variants", []) for x in v_.get("fields", [])]
+        cnt_f = [n_ for n_, t_ in flds if t_ == "u32"]
+        min_f = [n_ for n_, t_ in flds if t_ == "u8" and "min" in n_]
+        lg_f = [n_ for n_, t_ in flds if t_ == "u8" and "lg" in n_]
+        if e_ is None or len(cnt_f) != 1 or len(lg_f) != 1:
+            continue
+        n_e += 1
+        verdict, wit = None, ""
+        try:
+            verdict = True
+            for lg in (4, 8, 21):
+                k = 1 << lg
+                for cnt in (0, 1, k - 1, k):
+                    for cm in ((0, 1, 3) if min_f else (0,)):
+                        env = {"@prog": prog, "self." + cnt_f[0]: cnt, "self." + lg_f[0]: lg}
+                        if min_f:
+                            env["self." + min_f[0]] = cm
+                        got = bool(formula.evaluate(e_, env))
+                        want = (cnt == k and cm == 0)
+                        if got != want:
+                            verdict, wit = False, "lg_k=%d, %d registers at the minimum value %d: is_empty() = %s" % (lg, cnt, cm, got)
+        except (formula.Uneval, TypeError):
+            verdict = None
+        res.tri(verdict, "C02.E", "C02.E|%s" % owner, "%s::is_empty is not `all registers are zero`: %s" % (owner, wit), fe.id)
+    res.rule("C02.E", n_e, 3, "emptiness of the register arrays")
 
     # ---------------- C02.Q : probe geometry
     n_q = 0
